@@ -32,6 +32,8 @@ func c14Cases(tier string, seed uint64, flavor string) []lib.Case {
 	return cases
 }
 
+var c14SharedCtx = &overlay.OverlayPatchContext{}
+
 var c14EqualRuns = []int{1, 100, 8191, 8192, 8193, 8194, 20000, 131071, 131072, 131073, 300000}
 var c14WriteSizes = []int{1, 7, 4096, 8191, 8192, 8193, 131071, 131072, 131073, 300000, -1}
 
@@ -281,7 +283,13 @@ func c14Run(c lib.Case, env *lib.Env) lib.Result {
 		res.Inconclusive(err.Error())
 		return res
 	}
+	// the overlay bowl applies all overlays of a commit through ONE patch context: every other case reuses the
+	// context of the cases that ran before it in this process
 	pctx := &overlay.OverlayPatchContext{}
+	if c.ID%2 == 0 {
+		pctx = c14SharedCtx
+		res.Add("applied_through_reused_context", 1)
+	}
 	if err := pctx.Patch(src, tf); err != nil {
 		tf.Close()
 		res.Violate("patch-error", desc, err.Error())
